@@ -37,7 +37,8 @@ def parse_push(desc):
     carried = None
     if inner:
         mm = re.search(r'\)\.(0|1)@(Update|Withdraw)\.0', inner)
-        carried = ('old' if mm.group(1) == '0' else 'new') + '-action providers' if mm else inner
+        m2 = re.search(r'opt_(old|new)@Some\.0\.1@(Update|Withdraw)\.0', inner)
+        carried = ('old' if mm.group(1) == '0' else 'new') + '-action providers' if mm else (m2.group(1) + '-action providers' if m2 else inner)
     return (side + '-key', act, carried)
 
 
@@ -51,13 +52,14 @@ def rows_equal_key(rws):
         for k, v in c.items():
             if k == 'cmp' or (('Ord' in k) and 'cmp(' in k and k.startswith('call:')):
                 cmpv = v
-            elif k.startswith('tuple(') and k.endswith(').0'):
+            elif (k.startswith('tuple(') and k.endswith(').0')) or re.match(r'^var:opt_old@Some\.0\.1$', k):
                 acts['old'] = v
-            elif k.startswith('tuple(') and k.endswith(').1'):
+            elif (k.startswith('tuple(') and k.endswith(').1')) or re.match(r'^var:opt_new@Some\.0\.1$', k):
                 acts['new'] = v
             elif k.startswith('cmp(') and 'providers' in k:
                 prov = 'same' if v == 'Equal' else 'differ'
-                side_ok = re.search(r'\)\.0@(Update|Withdraw)\.0', k) is not None and 'opt_new@Some.0.0.providers' in k
+                side_ok = (re.search(r'\)\.0@(Update|Withdraw)\.0', k) is not None or re.search(r'opt_old@Some\.0\.1@(Update|Withdraw)\.0', k) is not None) \
+                    and 'opt_new@Some.0.0.providers' in k
                 acts['prov_operands_ok'] = side_ok
         out.append((c.get('old'), c.get('new'), cmpv, acts, prov, r))
     return out
